@@ -437,7 +437,7 @@ func runC13(t *simrt.Tape, o Opts) Outcome {
 			out.Viols = append(out.Viols, world.Violation{Prop: "C13", Rule: "deadlock", Signature: "C13/deadlock/" + impl, Msg: f.Msg})
 		case simrt.FailPanic:
 			out.Infra = nil
-			out.Viols = append(out.Viols, world.Violation{Prop: "C13", Rule: "panic", Signature: "C13/goroutine-panic", Msg: f.Msg + "\n" + f.Stack})
+			out.Viols = append(out.Viols, world.Violation{Prop: "C13", Rule: "panic", Signature: "C13/" + panicKind(f.Msg), Msg: f.Msg + "\n" + f.Stack})
 		}
 	}
 	var _ = errors.New
